@@ -1,6 +1,6 @@
 From Coq Require Import extraction.Extraction extraction.ExtrOcamlBasic.
-From TU Require Import Base C12_Model C12_UAX29.
-Definition run := run_C12.
-Definition check := check_C12.
-Definition agree (inp m i : val) : bool := agree_C12 inp m i && uax29_agree inp.
+From TU Require Import Base C12_Model C12_UAX29 C12_Float.
+Definition run := run_C12F.
+Definition check := check_C12F.
+Definition agree (inp m i : val) : bool := agree_C12F inp m i && uax29_agree inp.
 Extraction "model.ml" run check agree.
